@@ -97,15 +97,31 @@ class _BodyTransformer(ast.NodeTransformer):
         f = node.func
         if isinstance(f, ast.Name) and f.id in self.liftable:
             node.func = ast.Name("__lifted_" + f.id, ast.Load())
+            if self.cuda:
+                node.keywords = list(node.keywords) + [ast.keyword(k, ast.Name(k, ast.Load())) for k in ("__tid", "__bdim", "__gdim")]
             return ast.copy_location(ast.YieldFrom(value=node), node)
         if self.cuda and isinstance(f, ast.Attribute):
             dotted = _dotted(f)
             if dotted == "cuda.grid":
                 return ast.copy_location(ast.Name("__tid", ast.Load()), node)
+            if dotted == "cuda.gridsize":
+                return ast.copy_location(ast.BinOp(ast.Name("__bdim", ast.Load()), ast.Mult(), ast.Name("__gdim", ast.Load())), node)
             if dotted == "cuda.local.array":
                 return ast.copy_location(ast.Call(ast.Name("__localarray", ast.Load()), [node.args[0]], []), node)
-            if dotted in ("cuda.syncthreads",):
-                raise LiftError("cuda.syncthreads is not modelled by the lifter")
+            if dotted in ("cuda.syncthreads", "cuda.shared.array", "cuda.atomic.add", "cuda.syncwarp"):
+                raise LiftError(f"{dotted} is not modelled by the lifter")
+        return node
+
+    def visit_Attribute(self, node):
+        if self.cuda and isinstance(node.ctx, ast.Load):
+            dotted = _dotted(node)
+            repl = {"cuda.threadIdx.x": ast.BinOp(ast.Name("__tid", ast.Load()), ast.Mod(), ast.Name("__bdim", ast.Load())),
+                    "cuda.blockIdx.x": ast.BinOp(ast.Name("__tid", ast.Load()), ast.FloorDiv(), ast.Name("__bdim", ast.Load())),
+                    "cuda.blockDim.x": ast.Name("__bdim", ast.Load()),
+                    "cuda.gridDim.x": ast.Name("__gdim", ast.Load())}.get(dotted)
+            if repl is not None:
+                return ast.copy_location(repl, node)
+        self.generic_visit(node)
         return node
 
 
@@ -244,7 +260,13 @@ class LiftedKernel:
         self.kind = kind
         self.pyfunc = dispatcher.py_func
         self.name = self.pyfunc.__name__
-        self.globals = self.pyfunc.__globals__
+        self.globals = dict(self.pyfunc.__globals__)
+        if self.pyfunc.__closure__:
+            for nm, cell in zip(self.pyfunc.__code__.co_freevars, self.pyfunc.__closure__):
+                try:
+                    self.globals[nm] = cell.cell_contents
+                except ValueError:
+                    pass
         self.fdef = _func_ast(self.pyfunc)
         self.argnames = [a.arg for a in self.fdef.args.args]
         self.liftable = {k for k, v in self.globals.items() if _is_dispatcher(v) and k != self.name}
@@ -257,9 +279,12 @@ class LiftedKernel:
     # -- helpers lifted into generator functions -------------------------
     def _lift_helper_src(self, name):
         fdef = _func_ast(self.globals[name].py_func)
-        tr = _BodyTransformer(self.liftable, set(), cuda=False)
+        tr = _BodyTransformer(self.liftable, set(), cuda=(self.kind == "cuda"))
         fdef = tr.visit(fdef)
         fdef.name = "__lifted_" + name
+        if self.kind == "cuda":  # device functions see the same thread coordinates as the kernel that calls them
+            fdef.args.kwonlyargs = list(fdef.args.kwonlyargs) + [ast.arg("__tid"), ast.arg("__bdim"), ast.arg("__gdim")]
+            fdef.args.kw_defaults = list(fdef.args.kw_defaults) + [ast.Constant(0), ast.Constant(1), ast.Constant(1)]
         fdef.body.insert(0, ast.If(test=ast.Constant(False), body=[ast.Expr(ast.Yield(value=None))], orelse=[]))
         mod = ast.Module(body=[fdef], type_ignores=[])
         ast.fix_missing_locations(mod)
@@ -315,7 +340,7 @@ class LiftedKernel:
         tr = _BodyTransformer(self.liftable, set(), cuda=True)
         fdef = tr.visit(self.fdef)
         fdef.name = "__body"
-        fdef.args.args = [ast.arg("__tid")] + fdef.args.args
+        fdef.args.args = [ast.arg("__tid"), ast.arg("__bdim"), ast.arg("__gdim")] + fdef.args.args
         fdef.body.insert(0, ast.If(test=ast.Constant(False), body=[ast.Expr(ast.Yield(value=None))], orelse=[]))
         mod = ast.Module(body=[fdef], type_ignores=[])
         ast.fix_missing_locations(mod)
@@ -332,13 +357,20 @@ class LiftedKernel:
         body_ns.update({"__ld": rt.ld, "__st": rt.st, "__red": rt.red,
                         "__localarray": lambda n: np.zeros(int(n), dtype=np.float64)})
         for n in self.liftable:
+            hp = self.globals[n].py_func
+            if hp.__closure__:  # helpers produced by factories: their free variables
+                for nm, cell in zip(hp.__code__.co_freevars, hp.__closure__):
+                    try:
+                        body_ns.setdefault(nm, cell.cell_contents)
+                    except ValueError:
+                        pass
             code = self.helper_code.get(n)
             if code is None:
                 code = self.helper_code[n] = self._lift_helper_src(n)
             exec(code, body_ns)
         return plain, body_ns
 
-    def start(self, args, nthreads=None, hot=None):
+    def start(self, args, nthreads=None, hot=None, launch=None, outputs=None):
         """Returns (rt, threads(list of generators), finish()) for one fresh execution."""
         rt = Runtime()
         rt.hot = hot
@@ -366,8 +398,10 @@ class LiftedKernel:
                 rt.register(k, v)
             rt.shared = body_ns
             exec(self.body_code, body_ns)
-            threads = [body_ns["__body"](j, *args) for j in range(nthreads)]
-            outs = args[-4:]
+            gdim, bdim = launch if launch else (1, nthreads)
+            nthreads = gdim * bdim
+            threads = [body_ns["__body"](j, bdim, gdim, *args) for j in range(nthreads)]
+            outs = [args[i] for i in outputs] if outputs is not None else args[-4:]
 
             def finish():
                 return tuple(np.array(o, copy=True) for o in outs)
@@ -383,7 +417,7 @@ class Execution:
 
 def run_schedule(lk, args, prefix, nthreads=None, hot=None):
     """Replay `prefix` (list of choice indices), then always take choice 0."""
-    rt, threads, finish = lk.start(args, nthreads, hot)
+    rt, threads, finish = lk.start(args, nthreads, hot, getattr(lk, "launch", None), getattr(lk, "outputs", None))
     n = len(threads)
     pending = [None] * n     # the hot access each thread is poised at
     done = [False] * n
@@ -497,3 +531,123 @@ def explore(lk, args, bound, nthreads=None, max_exec=2_000_000, stop_on_diff=Fal
 
 def multinomial(m, K):
     return math.factorial(m * K) // (math.factorial(m) ** K)
+
+
+# ---------------------------------------------------------------------------
+# finding the parallel region behind an entry point
+# ---------------------------------------------------------------------------
+class _Captured(Exception):
+    pass
+
+
+def _has_prange(pyfunc):
+    try:
+        fdef = _func_ast(pyfunc)
+    except Exception:  # noqa: BLE001
+        return False
+    return any(isinstance(st, ast.For) and isinstance(st.iter, ast.Call) and isinstance(st.iter.func, ast.Name)
+               and st.iter.func.id in ("_prange", "prange") for st in fdef.body)
+
+
+def capture_prange_call(entry, args):
+    """If `entry` (a dispatcher) has its prange loop in a helper, run entry's Python source up to the call of that helper and
+    return (helper dispatcher, args of that call). Returns (entry, args) if entry itself contains the loop."""
+    if _has_prange(entry.py_func):
+        return entry, list(args)
+    g = entry.py_func.__globals__
+    targets = {k: v for k, v in g.items() if _is_dispatcher(v) and _has_prange(v.py_func)}
+    if not targets:
+        raise LiftError(f"{entry.py_func.__name__}: no prange loop found in it or in the helpers it can call")
+    box = {}
+    saved = {}
+    try:
+        for k, v in targets.items():
+            saved[k] = v
+
+            def stub(*a, __k=k, __v=v, **kw):
+                box["hit"] = (__v, list(a))
+                raise _Captured()
+
+            g[k] = stub
+        try:
+            entry.py_func(*[a.copy() if isinstance(a, np.ndarray) else a for a in args])
+        except _Captured:
+            pass
+    finally:
+        g.update(saved)
+    if "hit" not in box:
+        raise LiftError(f"{entry.py_func.__name__}: the prange-containing helper was not called")
+    return box["hit"]
+
+
+class _DevArr(np.ndarray):
+    def copy_to_host(self, *a, **k):
+        return np.array(self)
+
+
+def capture_cuda_launch(host_fn, args):
+    """Run a CUDA host wrapper (plain Python) with the device API replaced by NumPy stand-ins and every kernel launch
+    recorded instead of executed. Returns (kernel dispatcher, (griddim, blockdim), kernel args, indices of output args)."""
+    g = host_fn.__globals__
+    rec = {}
+    created = []
+
+    class Shim:
+        def __init__(self, real):
+            self._real = real
+
+        def to_device(self, a, *x, **k):
+            return np.array(a, copy=True).view(_DevArr)
+
+        def device_array(self, shape, dtype=np.float64, *x, **k):
+            arr = np.full(shape, np.nan, dtype=dtype).view(_DevArr)
+            created.append(arr)
+            return arr
+
+        def device_array_like(self, a, *x, **k):
+            arr = np.full(np.shape(a), np.nan, dtype=np.asarray(a).dtype).view(_DevArr)
+            created.append(arr)
+            return arr
+
+        def synchronize(self):
+            return None
+
+        def __getattr__(self, name):
+            return getattr(self._real, name)
+
+    class Launcher:
+        def __init__(self, disp):
+            self.disp = disp
+            self.py_func = disp.py_func
+
+        def __getitem__(self, cfg):
+            def launch(*kargs):
+                gd, bd = cfg[0], cfg[1]
+                gd = int(gd[0] if isinstance(gd, (tuple, list)) else gd)
+                bd = int(bd[0] if isinstance(bd, (tuple, list)) else bd)
+                rec["hit"] = (self.disp, (gd, bd), list(kargs))
+                raise _Captured()
+            return launch
+
+    saved = {}
+    try:
+        for k, v in list(g.items()):
+            if k == "cuda" or (hasattr(v, "to_device") and hasattr(v, "device_array") and hasattr(v, "jit")):
+                saved[k] = v
+                g[k] = Shim(v)
+            elif _is_dispatcher(v) and "CUDA" in type(v).__name__:
+                saved[k] = v
+                g[k] = Launcher(v)
+        try:
+            host_fn(*[a.copy() if isinstance(a, np.ndarray) else a for a in args])
+        except _Captured:
+            pass
+    finally:
+        g.update(saved)
+    if "hit" not in rec:
+        raise LiftError(f"{host_fn.__name__}: no kernel launch was recorded")
+    disp, cfg, kargs = rec["hit"]
+    outs = [i for i, a in enumerate(kargs) if any(a is c for c in created)]
+    if not outs:
+        raise LiftError(f"{host_fn.__name__}: the launch has no output array created by device_array")
+    return disp, cfg, kargs, outs
